@@ -31,7 +31,7 @@ def required(tier):
     for which in (1, 2):
         for rel in RELS:
             req += ['g%d.eq/%s' % (which, rel)]
-        req += ['g%d.eq/lambda=-1' % which, 'g%d.eq/reflexive' % which, 'g%d.eq/transitive' % which, 'g%d.ne' % which,
+        req += ['g%d.eq/near-equal' % which, 'g%d.eq/lambda=-1' % which, 'g%d.eq/reflexive' % which, 'g%d.eq/transitive' % which, 'g%d.ne' % which,
                 'g%d.is_zero' % which, 'g%d.normalize' % which, 'g%d.normalize/identity' % which, 'g%d.from_jacobian' % which,
                 'g%d.from_jacobian/identity' % which, 'g%d.affine.xy' % which, 'g%d.from_affine' % which, 'g%d.affine.eq' % which]
     return req
@@ -90,6 +90,44 @@ def run(ctx, spec):
         i = pr.emit('_', g + '.eq', x, y)
         exp[i] = (cls, 'bool ' + str(vals[x] == vals[y]).lower(), nt)
 
+    if rel not in ('id-id', 'id-point') and rng.random() < 0.3:
+        # history template: a scalar inversion in Fr directly before normalising a point whose z has the SAME internal limbs
+        m = rng.getrandbits(250) | 1
+        if which == 2:
+            # G2 inverts the norm z0^2 + 2 z1^2 of z in Fq: take z = (z0, 0) with z0^2 having the internal limbs m
+            while rm.fq_sqrt(rm.unmont(m, q)) is None:
+                m = rng.getrandbits(250) | 1
+        lamz = rm.unmont(m, q) if which == 1 else (rm.fq_sqrt(rm.unmont(m, q)), 0)
+        Pz = rm.gmul(which, a)
+        Z = pr.let(g + '.lit', rm.jac_lit(F, Pz, lamz))[0]
+        vals[Z] = Pz
+        pr.emit('_', 'fr.inverse', rm.h32(rm.unmont(m, r)))
+        n_, i = pr.let(g + '.normalize', Z)
+        exp[i] = ('%s.normalize' % g, ('norm', Pz), True)
+        pr.emit('_', 'fr.inverse', rm.h32(rm.unmont(m, r)))
+        a_, i = pr.let(g + '.aff.from_jacobian', Z)
+        exp[i] = ('%s.from_jacobian' % g, 'ok ' + F.enc(Pz[0]) + F.enc(Pz[1]), True)
+        ctx.count('cross-type-alias-template')
+    if rel not in ('id-id', 'id-point'):
+        # near-equal triples: the SAME raw X and Y with z multiplied by a root of unity, or one raw coordinate changed: these denote
+        # other points (-P, the same-y partner (omega*x, y), ...) although two of the three stored coordinates coincide
+        from .c04 import BETA
+        Pn = rm.gmul(which, a)
+        lam0 = gen.lam_for(rng, which)
+        base = rm.jac_lit(F, Pn, lam0)
+        w_ = F.width
+        bx, by, bz = base[:w_], base[w_:2 * w_], base[2 * w_:]
+        Breg = pr.let(g + '.lit', base)[0]
+        vals[Breg] = Pn
+        zeta = rng.choice([q - 1, BETA, BETA * BETA % q, (q - BETA) % q, (q - BETA * BETA) % q])
+        zz = F.dec(bz)
+        z2 = (zz * zeta % q) if which == 1 else rm.f2scale(zz, zeta)
+        variants = [bx + by + F.enc(z2), bx + F.enc(F.neg(F.dec(by))) + bz]
+        for lit in variants:
+            reg = pr.let(g + '.lit', lit)[0]
+            vals[reg] = rm.jac_affine(F, rm.jac_parse(F, lit))
+            eq(Breg, reg, '%s.eq/near-equal' % g)
+            eq(reg, Breg, '%s.eq/near-equal' % g)
     for x in X:
         eq(x, Y, '%s.eq/%s' % (g, rel))
         eq(Y, x, '%s.eq/%s' % (g, rel))
